@@ -137,6 +137,14 @@ def message_shape(msg, root):
         if p is not None:
             out["path"] = p
             out["parsed"] = True
+    # every path written anywhere in the text, whatever the wording around it
+    out["paths"] = []
+    at = msg.find("_[")
+    while at != -1 and len(out["paths"]) < 6:
+        p = parse_path_text(msg[at:], root)
+        if p is not None and p not in out["paths"]:
+            out["paths"].append(p)
+        at = msg.find("_[", at + 2)
     return out
 
 
@@ -174,7 +182,7 @@ def _observe_validate(real, v_real):
         except am.Unrepresentable:
             ev["rep"] = False
         fact = {"nonempty": False, "names_path": False, "located": False,
-                "msg": {"noun": "", "phrase": "", "has_at": False, "path": [], "parsed": False}}
+                "msg": {"noun": "", "phrase": "", "has_at": False, "path": [], "parsed": False, "paths": []}}
         try:
             msg = err.format(fmt)
             fact["nonempty"] = isinstance(msg, str) and len(msg.strip()) > 0
